@@ -224,7 +224,12 @@ def build(spec, env):
         return w, m, (None if ch is None else [w] + ch), root
     if k == 'S':
         o, m, ch, root = build(spec[1], env)
-        w = L["KDSubset"](o, list(spec[2]))
+        idxs = list(spec[2])
+        if env.bulk == "numpy":
+            idxs = L["np"].array(idxs, dtype=L["np"].int64)  # index containers as the shipped subset wrappers build them
+        elif env.bulk == "tensor":
+            idxs = L["torch"].tensor(idxs, dtype=L["torch"].long)
+        w = L["KDSubset"](o, idxs)
         return w, [m[i] for i in spec[2]], (None if ch is None else [w] + ch), root
     if k == 'W':
         o, m, ch, root = build(spec[2], env)
